@@ -55,6 +55,32 @@ def fresh_replay(path) -> bool:
     return p.returncode == 1
 
 
+def js_cross_check(results):
+    """translator validation of the JSON Schema evaluator (DESIGN.md 3.3)"""
+    triples = []
+    for r in results:
+        triples.extend(r.get("js_triples") or [])
+    if not triples:
+        return None
+    import tempfile
+
+    with tempfile.NamedTemporaryFile("w", suffix=".json", delete=False) as f:
+        json.dump(triples, f)
+        path = f.name
+    try:
+        p = subprocess.run(
+            ["python3-vt", os.path.join(ROOT, "vf", "jscheck.py"), path],
+            capture_output=True, text=True, timeout=600,
+        )
+        out = json.loads(p.stdout.strip().splitlines()[-1])
+        out["library"] = "jsonschema (python3-vt)"
+        return out
+    except Exception as e:
+        return {"checked": 0, "n_disagreements": 0, "error": f"cross-check unavailable: {e!r}"}
+    finally:
+        os.unlink(path)
+
+
 def report(prop, tier, seed, results, wall, write=True) -> int:
     from vf import known as known_mod
 
@@ -81,7 +107,7 @@ def report(prop, tier, seed, results, wall, write=True) -> int:
         if st == "error":
             errors += 1
             print(f"HARNESS-ERROR job={job.get('pid')} {job.get('opts')} {r.get('error', '')[:1500]}")
-        if r.get("vacuous_tags"):
+        if r.get("vacuous_tags") and not r.get("failures"):
             vacuous.append((job, r["vacuous_tags"]))
         job_new = 0
         for f in r.get("failures", []):
@@ -128,6 +154,10 @@ def report(prop, tier, seed, results, wall, write=True) -> int:
                 samples.append({"program": job.get("pid"), "opts": job.get("opts"), "case": enc(s)})
 
     exit_code = 0
+    js = js_cross_check(results)
+    if js and js.get("n_disagreements"):
+        errors += 1
+        print(f"HARNESS-ERROR jsvalid disagrees with jsonschema: {json.dumps(js['disagreements'])[:1500]}")
     # known findings: listed, replayed once in a fresh interpreter, exit status unaffected
     kf_out = []
     for kid, (k, n, (job, f)) in sorted(known_hits.items()):
@@ -196,6 +226,7 @@ def report(prop, tier, seed, results, wall, write=True) -> int:
             "functions_encoded": sorted(functions),
             "samples": samples or [{"note": "no confirmed non-trivial path sampled"}],
             "known_findings": kf_out,
+            "evaluator_cross_check": js or "not applicable",
             "nonreproducing_counterexamples": len(nonrepro),
             "jobs": per_job,
             "exhaustive": bool(obligations and discharged == obligations),
